@@ -78,6 +78,27 @@ hyp("C08", "eng_proto3", 300, 2500,
     "parameters, unroutable replies, blank lines): output equal to the junk-free run modulo '> :ircd sent garbage' notices.  "
     "non-trivial = every case (each contains hostile or junk lines next to live client traffic); distinct by case hash",
     PROTO_ASSUME + ["batch mode: no barrier lines; LeakSanitizer off here (leaks are judged by C10)"])
+CONF_ASSUME = COMMON_ASSUME + ["src/config.c, set.c, common.c, bitset.c linked unmodified into harness/confh.c; log_message is a capturing stub",
+                              "LeakSanitizer off: parse-error paths leak the token being parsed (observation, not a memory error)"]
+hyp("C14", "eng_conf", 500, 5000,
+    "candidate bytes (every kind of damage to valid files: prefix at a generated byte, single bit flip, token insertion, deletion, "
+    "random bytes, grammar-token soup, and undamaged files) loaded on top of a generated prior state (random subset of 13 registered "
+    "nodes of all four kinds / string subtypes with hooks, 0-2 earlier valid loads); oracle: no ASan/UBSan memory report, load "
+    "returns, and on a non-zero return the canonical dump of the live tree is byte-identical and the hook log empty.  non-trivial = "
+    "the candidate was rejected after at least one complete entry had been parsed", CONF_ASSUME, needs=())
+hyp("C15", "eng_conf", 500, 5000,
+    "sequences of 1-5 valid files over a universe of names x kinds (incl. nested object, case variants, same name with different kinds) "
+    "x a random subset of 13 registrations each placed before a generated load or after the last; oracle: model (registered = file "
+    "value or default, unregistered = exactly the last file), identical reload changes nothing and notifies nobody, effective value "
+    "change => that node's hook ran, membership change => object hook ran, no memory error.  non-trivial = >=2 loads with >=3 node kinds",
+    CONF_ASSUME, needs=())
+hyp("C16", "eng_conf", 600, 6000,
+    "trees (depth <=3, all byte values except NUL in strings and names, lists of 0-5 items, host/service pairs, repeated keys, repeated "
+    "objects) rendered with independent layout choices (bare / quoted, every documented escape and unknown escapes, paren / comma "
+    "lists, ';' / newline terminators, string value directly followed by '}', comma list followed by a single terminator, C and C++ "
+    "comments, blanks); oracle: dump of the parsed tree equals the generating tree.  Typed settings: value written in generated "
+    "notation equals value delivered; an unparsable sibling leaves it in force.  non-trivial = rendering with >=3 layout features and "
+    "an escape or adjacency case, or a typed case", CONF_ASSUME, needs=())
 
 
 # ---------------------------------------------------------------------------
@@ -201,3 +222,5 @@ def replay(pid, path):
 
 
 native("C19", "eng_set")
+native("C12", "eng_addr")
+native("C13", "eng_addr")
